@@ -39,7 +39,7 @@ Stay(stk, toks) == { Mv(t, stk, FALSE) : t \in toks }
 
 InBody(stk) == \E i \in 1..Len(stk) : stk[i] = "B0"
 \* inside the header of a CREATE with a body (parameter list, trigger WHEN clause, DECLARE initialiser): before any BEGIN
-InHeader(stk) == \E i \in 1..Len(stk) : stk[i] \in {"CH", "DI"}
+InHeader(stk) == \E i \in 1..Len(stk) : stk[i] \in {"CH", "DI", "DI0"}
 
 \* statements that may start inside a body-like frame
 BodyStarts(stk) ==
@@ -107,8 +107,12 @@ Moves(stk) ==
            \cup { Mv(Tok("other", "name"), Repl(stk, "DS1"), FALSE) }
       [] f = "DS1" ->
            Stay(stk, { Tok("other", "type"), Tok("ws", "ws") })
-           \cup (IF "caseexpr_header" \in Allow THEN { Mv(Tok("other", "assign"), Repl(stk, "DI"), FALSE) } ELSE {})
+           \cup (IF "caseexpr_header" \in Allow THEN { Mv(Tok("other", "assign"), Repl(stk, "DI0"), FALSE) } ELSE {})
            \cup { Mv(Tok("semi", "semi"), Repl(stk, "DS2"), FALSE) }
+      [] f = "DI0" -> { Mv(Tok("other", "name"), Repl(stk, "DI"), FALSE), Mv(Tok("other", "num"), Repl(stk, "DI"), FALSE),
+                        Mv(Tok("other", "str"), Repl(stk, "DI"), FALSE), Mv(Tok("ws", "ws"), stk, FALSE) }     \* an initialiser has a value
+                      \cup (IF CanPush(stk) THEN { Mv(Tok("case", "case"), Push(Repl(stk, "DI"), "CX"), FALSE),
+                                                    Mv(Tok("lp", "lp"), Push(Repl(stk, "DI"), "R"), FALSE) } ELSE {})
       [] f = "DI" -> Expr(stk) \cup { Mv(Tok("semi", "semi"), Repl(stk, "DS2"), FALSE) }
       [] f = "DS2" ->
            Stay(stk, { Tok("ws", "ws"), Tok("nl", "nl") })
@@ -144,7 +148,7 @@ Moves(stk) ==
 Closing(stk) ==
     LET f == Top(stk)
         want == CASE f = "P" -> {"semi"} [] f = "R" -> {"rp"} [] f = "CX" -> {"end"}
-                  [] f = "CH" -> {"begin"} [] f = "DS" -> {"name"} [] f = "DS1" -> {"semi"} [] f = "DI" -> {"semi"} [] f = "DS2" -> {"begin"} [] f = "B0" -> {"end"}
+                  [] f = "CH" -> {"begin"} [] f = "DS" -> {"name"} [] f = "DS1" -> {"semi"} [] f = "DI0" -> {"name"} [] f = "DI" -> {"semi"} [] f = "DS2" -> {"begin"} [] f = "B0" -> {"end"}
                   [] f = "B" -> {"end"} [] f = "S" -> {"semi"} [] f = "S0" -> {"semi"} [] f = "SA" -> {"name"} [] f = "IC" -> {"then"}
                   [] f = "IB" -> {"endif"} [] f = "FH" -> {"loop"} [] f = "WH" -> {"loop", "do"}
                   [] f = "LB" -> {"endloop"} [] f = "WB" -> {"endwhile"} [] f = "CS" -> {"end"}
